@@ -17,6 +17,7 @@ vars == <<a, b, c, ph, holds>>
 EAll == 1..(N + 2)
 EFew == {1, 2, N - 1, N, N + 1}
 DAll == Scalars
+DThree == {1, (N - 1) \div 2, N - 1}
 SAll == 0..(N + 1)
 SFew == {0, 1, 2, (N - 1) \div 2, N - 2, N - 1, N, N + 1}
 ETwo == {3, N + 1}
